@@ -350,7 +350,7 @@ def obligations(tier):
     nmax = 2 if tier == "quick" else 3
     for dia in ("PVL", "ODL", "PDS3", "ISIS"):
         for shape in list(rt.SHAPES) + ["namekey", "ptrkey", "nskey"]:
-            if shape in ("quant", "wrapunits") or (shape in ("namekey", "ptrkey", "nskey") and dia in ("PVL", "ISIS")):
+            if shape in ("quant", "quantbad", "wrapunits") or (shape in ("namekey", "ptrkey", "nskey") and dia in ("PVL", "ISIS")):
                 continue
             for n in range(0, nmax + 1):
                 obs.append(Surface(dialect=dia, shape=shape, n=n, cfg="default"))
